@@ -354,6 +354,60 @@ def hanging_poll_leg(c, wd):
         c.violation('shutdown() while the service does not answer a poll: %s' % out['problems'][:3], p_)
 
 
+def update_vs_shutdown_leg(c, max_runs):
+    """"Afterwards the agent takes no further actions": a configuration update that is being installed while shutdown()
+    runs on another thread (the update was on its way; shutdown waits for it in its drain) leaves the stopped handler
+    with NOTHING to act on - whatever the interleaving (every schedule with one forced switch inside trigger_handler.py)."""
+    from .. import rig as R
+    from .. import sched as S
+    inf = {'fire_count': '-1', 'fire_period': '0'}
+
+    def make_run():
+        rg = R.Rig()
+        rg.install([dict(id='old', path='elsewhere.py', line=3, args=dict(inf))])
+        from deepproto.proto.tracepoint.v1.tracepoint_pb2 import TracePointConfig
+        from deep.grpc import convert_response
+        new = convert_response([TracePointConfig(ID='new%d' % i, path='elsewhere.py', line_number=10 + i, args=dict(inf))
+                                for i in range(3)])
+        sch = S.Scheduler(line_files=('deep/processor/trigger_handler.py',))
+        sch.spawn('U', lambda: rg.handler.new_config(new))
+        sch.spawn('S', lambda: rg.handler.shutdown())
+
+        def finish(sched, schedule):
+            left = [a.id for t in rg.handler._tp_config for a in t.actions]
+            errs = [n_ + ':' + repr(m.error) for n_, m in sched.threads.items() if m.error is not None]
+            rg.close()
+            problems = []
+            if errs:
+                problems.append('raised: %s' % errs)
+            if left:
+                problems.append('the stopped handler holds the tracepoints %s: threads that still run its trace function go on '
+                                'acting on them' % left)
+            return problems
+        return sch, finish
+    n = 0
+    for schedule, problems in S.explore(make_run, max_preemptions=1, max_runs=max_runs):
+        n += 1
+        c.traces_validated += 1
+        c.note_case(key=('update-vs-shutdown', str(schedule)), nontrivial=True)
+        if problems:
+            p_ = c.save_replay({'kind': 'update-vs-shutdown', 'schedule': [list(x) for x in _compress(schedule)],
+                                'problems': problems})
+            c.violation('a configuration update racing shutdown(), schedule %s: %s' % (_compress(schedule), problems[:2]), p_)
+            break
+    c.extra['update_vs_shutdown_schedules'] = n
+
+
+def _compress(schedule):
+    out = []
+    for s_ in schedule:
+        if out and out[-1][0] == s_:
+            out[-1][1] += 1
+        else:
+            out.append([s_, 1])
+    return out
+
+
 def interrupted_start_leg(c, wd):
     """start() fails in its FIRST poll with something that is not an Exception (the service does not answer, the user
     presses Ctrl-C): nothing of the agent is left behind - no hooks, and above all no poll timer that keeps asking the
@@ -407,6 +461,7 @@ def interrupted_start_leg(c, wd):
 def run_with_e2e(c):
     run(c)
     interrupted_start_leg(c, tlc.scratch('c14i_'))
+    update_vs_shutdown_leg(c, 150 if c.tier == 'quick' else 1500)
     hanging_poll_leg(c, tlc.scratch('c14h_'))
     plugin_cleans_up_leg(c, tlc.scratch('c14p_'))
     # end to end: after the real deep.shutdown() over a real gRPC connection nothing reaches the service any more,
